@@ -19,7 +19,7 @@ Local Open Scope N_scope.
 (* ---- the script walk terminates: len(script) iterations always suffice ------------------------------ *)
 Theorem C04_delete_subscript_total : forall script sub : bytes,
   exists r, delete_subscript script sub = Ret r.
-Proof. intros script sub. eexists. apply delete_subscript_dws. Qed.
+Proof. exact delete_subscript_total. Qed.
 Print Assumptions C04_delete_subscript_total.
 
 (* ---- FindAndDelete ------------------------------------------------------------------------------------ *)
@@ -106,7 +106,7 @@ Theorem C04_legacy_digest_btc_ltc_partial :
   c = BTC \/ c = LTC -> core_decodable script = true ->
   signature_hash sha256 dsha256 c t script idx ht
   = Ret (be_decode (core_digest dsha256 (core_signature_hash_legacy script (to_core t) idx ht))).
-Proof. exact legacy_digest_btc. Qed.
+Proof. exact legacy_digest_btc_ltc. Qed.
 Print Assumptions C04_legacy_digest_btc_ltc_partial.
 
 (* the SIGHASH_SINGLE bug value: no hypothesis on the transaction, the script or the rest of the hash type *)
@@ -128,7 +128,7 @@ Theorem C04_bip143_preimage_eq :
   nth_error (tx_unspents t) idx = Some (Some u) -> to_value u < 2 ^ 64 -> ht < 2 ^ 32 ->
   btc_segwit_preimage dsha256 t script idx ht
   = Ret (bip143_preimage dsha256 script (to_core t) idx (to_value u) ht).
-Proof. intros sha256 dsha256 t script idx ht u H1 H2 H3 H4 H5 H6. now apply (btc_preimage_eq dsha256 t script idx). Qed.
+Proof. exact bip143_preimage_btc. Qed.
 Print Assumptions C04_bip143_preimage_eq.
 
 Theorem C04_bip143_digest_btc_ltc_bch :
@@ -138,7 +138,7 @@ Theorem C04_bip143_digest_btc_ltc_bch :
   c = BTC \/ c = LTC \/ c = BCH ->
   signature_for_hash_type_segwit sha256 dsha256 c t script idx ht
   = Ret (be_decode (dsha256 (bip143_preimage dsha256 script (to_core t) idx (to_value u) ht))).
-Proof. intros. now apply segwit_digest_btc. Qed.
+Proof. exact bip143_digest_btc_ltc_bch. Qed.
 Print Assumptions C04_bip143_digest_btc_ltc_bch.
 
 (* ---- fork ids: refused without SIGHASH_FORKID, otherwise BIP143 with hash_type | forkid << 8 -------------- *)
@@ -151,7 +151,7 @@ Theorem C04_forkid_bch :
     | None => Raise E_SCRIPT
     | Some p => Ret (be_decode (dsha256 p))
     end.
-Proof. intros. now apply forkid_bch. Qed.
+Proof. exact forkid_bch_q. Qed.
 Print Assumptions C04_forkid_bch.
 
 Theorem C04_forkid_btg :
@@ -164,7 +164,7 @@ Theorem C04_forkid_btg :
               end in
   signature_hash sha256 dsha256 BTG t script idx ht = spec
   /\ signature_for_hash_type_segwit sha256 dsha256 BTG t script idx ht = spec.
-Proof. intros. split; [now apply forkid_btg_legacy | now apply forkid_btg_segwit]. Qed.
+Proof. exact forkid_btg_both. Qed.
 Print Assumptions C04_forkid_btg.
 
 (* the refusals hold for EVERY transaction, script, index (no well-formedness needed) *)
@@ -187,7 +187,7 @@ Theorem C04_grs_single_sha :
    = Ret (be_decode (core_digest sha256 (core_signature_hash_legacy script (to_core t) idx ht))))
   /\ signature_for_hash_type_segwit sha256 dsha256 GRS t script idx ht
      = Ret (be_decode (sha256 (bip143_preimage sha256 script (to_core t) idx (to_value u) ht))).
-Proof. intros. split; [intros; now apply legacy_digest_grs | now apply segwit_digest_grs]. Qed.
+Proof. exact grs_single_sha. Qed.
 Print Assumptions C04_grs_single_sha.
 
 (* ---- the hypotheses are satisfiable --------------------------------------------------------------------- *)
